@@ -619,6 +619,11 @@ func (p *parser) parseEscape(opts CharsetOptions, standalone bool) charset {
 					return nil
 				}
 				r = r<<4 + d
+				if r > unicode.MaxRune {
+					// Stop before the value wraps around.
+					p.error("invalid escape sequence (exceeds unicode.MaxRune)", start, p.scanOffset)
+					return nil
+				}
 				p.next()
 				if p.ch == '}' {
 					break
@@ -675,7 +680,7 @@ func hexval(r rune) rune {
 	switch {
 	case r >= 'a' && r <= 'f':
 		return r - 'a' + 10
-	case r >= 'A' && r <= 'Z':
+	case r >= 'A' && r <= 'F':
 		return r - 'A' + 10
 	case r >= '0' && r <= '9':
 		return r - '0'
